@@ -571,6 +571,215 @@ theorem inv_run {cfg : Cfg α} {name : Bytes} (hmin : cfg.minLen > 0) :
     exact inv_run hmin ops _ (fun o ho => h101 o (List.mem_cons_of_mem _ ho))
       (inv_step op hmin (h101 op List.mem_cons_self) h)
 
+/-! ### Close -/
+
+theorem shape_rwClose {cfg : Cfg α} {name : Bytes} {st : St α} (h : Inv cfg name st) :
+    Shape cfg name (rwClose cfg st) := by
+  unfold rwClose closeHeader
+  cases hw : st.wroteHeader with
+  | true =>
+    simp only [Bool.not_true, Bool.false_eq_true, if_false]
+    by_cases ho : st.encOpen = true
+    · simp only [ho, if_true]
+      obtain ⟨a, s, sc, h0, b, c, d⟩ := h.opn ho
+      exact .encoded st.log s sc h0 rfl a (by simp [encClose, implicitHeader, b, fixSent]) c d
+    · simp only [ho]
+      exact .identity (h.pln hw (by simpa using ho))
+  | false =>
+    simp only [Bool.not_false, if_true]
+    obtain ⟨hs, ho, hl⟩ := h.pre hw
+    -- the state after the optional `init`
+    have key : ∃ s1 : St α, (if clGtMin cfg st.hdr = true then rwInit cfg st else st) = s1 ∧
+        s1.wroteHeader = false ∧ s1.sent = none ∧ s1.log = st.log ∧
+        (s1.encOpen = false ∨ (s1.encOpen = true ∧ s1.hdr = initHdr name st.hdr ∧
+          InitOk cfg st.statusCode st.hdr ∧ clGtMin cfg st.hdr = true)) := by
+      by_cases hc : clGtMin cfg st.hdr = true
+      · simp only [hc, if_true]
+        rcases rwInit_spec cfg st with e | ⟨e, ok⟩
+        · exact ⟨_, rfl, by rw [e]; exact hw, by rw [e]; exact hs, by rw [e], Or.inl (by rw [e]; exact ho)⟩
+        · rw [e]
+          exact ⟨_, rfl, hw, hs, rfl, Or.inr ⟨rfl, by simp [h.nm], ok, by simpa using hc⟩⟩
+      · simp only [hc]
+        exact ⟨_, rfl, hw, hs, rfl, Or.inl ho⟩
+    obtain ⟨s1, e, k1, k2, k3, k4⟩ := key
+    rw [e]
+    obtain ⟨c1, c2, c3, c4, c5, c6⟩ := commitHeader_spec s1 k1 k2 (by rw [k3]; exact hl)
+    generalize commitHeader s1 = s2 at *
+    rcases k4 with k4 | ⟨k4, k5, k6, k7⟩
+    · have : s2.encOpen = false := by rw [c2, k4]
+      simp only [this, Bool.false_eq_true, if_false]
+      exact .identity (headerOnly_plainOnly _ c5)
+    · have : s2.encOpen = true := by rw [c2, k4]
+      simp only [this, if_true]
+      have hsent : ∃ s, (encClose s2).sent = some (s, initHdr name st.hdr) := by
+        rcases c6 with c6 | ⟨s, c6⟩
+        · exact ⟨200, by simp [encClose, implicitHeader, c6, fixSent, c4, k5]⟩
+        · exact ⟨s, by simp [encClose, implicitHeader, c6, fixSent, k5]⟩
+      obtain ⟨s, hs'⟩ := hsent
+      exact .encoded s2.log s st.statusCode st.hdr rfl (headerOnly_encOnly _ c5) hs' k6 (Or.inr k7)
+
+/-! ## payload bookkeeping (holds for every configuration) -/
+
+theorem payloads_dsWriteHeader (st : St α) (s : Nat) : payloads (dsWriteHeader st s).log = payloads st.log := by
+  simp [dsWriteHeader, payloads]
+
+theorem payloads_rwWriteHeader (st : St α) (s : Nat) : payloads (rwWriteHeader st s).log = payloads st.log := by
+  unfold rwWriteHeader informational connectImmediate vary304
+  split <;> split <;> split <;> simp [dsWriteHeader, payloads]
+
+theorem payloads_connectDefault (st : St α) : payloads (connectDefault st).log = payloads st.log := by
+  unfold connectDefault; split
+  · exact payloads_rwWriteHeader st 200
+  · rfl
+
+theorem payloads_commitHeader (st : St α) : payloads (commitHeader st).log = payloads st.log := by
+  unfold commitHeader; split
+  · split <;> simp [dsWriteHeader, payloads]
+  · rfl
+
+theorem payloads_emit (st : St α) (p : α) : payloads (emit st p).log = payloads st.log ++ [p] := by
+  unfold emit; split <;> simp [encWrite, dsWrite, implicitHeader, payloads]
+
+theorem payloads_rwWrite (cfg : Cfg α) (st : St α) (p : α) :
+    payloads (rwWrite cfg st p).log = payloads st.log ++ opPayloads cfg (.write p) := by
+  unfold rwWrite
+  by_cases hz : (cfg.size p == 0) = true
+  · simp [opPayloads, hz]
+  · rw [if_neg hz, payloads_emit, payloads_commitHeader, (decide1_spec cfg _ p).1, payloads_connectDefault]
+    simp [opPayloads, hz]
+
+theorem payloads_rwFlush (st : St α) : payloads (rwFlush st).log = payloads st.log := by
+  unfold rwFlush flushThrough
+  split
+  · exact payloads_connectDefault st
+  · split <;> simp [dsFlush, encFlush, implicitHeader, payloads, payloads_connectDefault]
+
+theorem payloads_sniffLoop (cfg : Cfg α) :
+    ∀ (chunks : List α) (n : Nat) (st : St α), (∀ c ∈ chunks, (cfg.size c == 0) = false) →
+      payloads (sniffLoop cfg chunks n st).1.log ++ (sniffLoop cfg chunks n st).2.1 = payloads st.log ++ chunks ∧
+      ((sniffLoop cfg chunks n st).2.2 ≠ 0 → (sniffLoop cfg chunks n st).2.1 = [])
+  | [], n, st, _ => by simp [sniffLoop]
+  | c :: cs, n, st, hne => by
+    unfold sniffLoop
+    by_cases hn : n = 0
+    · simp [hn]
+    · simp only [hn, if_false]
+      obtain ⟨i1, i2⟩ := payloads_sniffLoop cfg cs (n - cfg.size c)
+        { rwWrite cfg st c with unreal := st.unreal || decide (cfg.size c > n) }
+        (fun x hx => hne x (List.mem_cons_of_mem _ hx))
+      refine ⟨?_, i2⟩
+      rw [i1]
+      show payloads (rwWrite cfg st c).log ++ cs = _
+      rw [payloads_rwWrite]
+      simp [opPayloads, hne c List.mem_cons_self]
+
+theorem payloads_foldl_encWrite : ∀ (chunks : List α) (st : St α),
+    payloads (chunks.foldl encWrite st).log = payloads st.log ++ chunks
+  | [], st => by simp
+  | c :: cs, st => by
+    rw [List.foldl_cons, payloads_foldl_encWrite cs]
+    simp [encWrite, implicitHeader, payloads]
+
+theorem payloads_foldl_dsWrite : ∀ (chunks : List α) (st : St α),
+    payloads (chunks.foldl dsWrite st).log = payloads st.log ++ chunks
+  | [], st => by simp
+  | c :: cs, st => by
+    rw [List.foldl_cons, payloads_foldl_dsWrite cs]
+    simp [dsWrite, implicitHeader, payloads]
+
+theorem payloads_copyRest (st : St α) (chunks : List α) :
+    payloads (copyRest st chunks).log = payloads st.log ++ chunks := by
+  unfold copyRest; split
+  · exact payloads_foldl_encWrite _ _
+  · exact payloads_foldl_dsWrite _ _
+
+theorem payloads_rwReadFrom (cfg : Cfg α) (st : St α) (chunks : List α) :
+    payloads (rwReadFrom cfg st chunks).log = payloads st.log ++ nonEmpty cfg chunks := by
+  unfold rwReadFrom
+  split
+  · obtain ⟨i1, i2⟩ := payloads_sniffLoop cfg (nonEmpty cfg chunks) 512 st (nonEmpty_size cfg chunks)
+    unfold afterSniff
+    by_cases hz : (sniffLoop cfg (nonEmpty cfg chunks) 512 st).2.2 = 0
+    · simp only [hz, if_true]
+      rw [payloads_copyRest]; exact i1
+    · simp only [hz, if_false]
+      rw [← i1, i2 hz]; simp
+  · exact payloads_copyRest _ _
+
+theorem payloads_step (cfg : Cfg α) (st : St α) (op : Op α) :
+    payloads (step cfg st op).log = payloads st.log ++ opPayloads cfg op := by
+  cases op with
+  | writeHeader s => simpa [step, opPayloads] using payloads_rwWriteHeader st s
+  | write p => exact payloads_rwWrite cfg st p
+  | flush => simpa [step, opPayloads] using payloads_rwFlush st
+  | readFrom cs => exact payloads_rwReadFrom cfg st cs
+  | hset k v => simp [step, opPayloads]
+  | hadd k v => simp [step, opPayloads]
+  | hdel k => simp [step, opPayloads]
+
+theorem payloads_run (cfg : Cfg α) : ∀ (ops : List (Op α)) (st : St α),
+    payloads (run cfg st ops).log = payloads st.log ++ written cfg ops
+  | [], st => by simp [run, written]
+  | op :: ops, st => by
+    have : run cfg st (op :: ops) = run cfg (step cfg st op) ops := rfl
+    rw [this, payloads_run cfg ops, payloads_step]
+    simp [written, List.append_assoc]
+
+theorem payloads_rwClose (cfg : Cfg α) (st : St α) : payloads (rwClose cfg st).log = payloads st.log := by
+  have hch : payloads (closeHeader cfg st).log = payloads st.log := by
+    unfold closeHeader
+    split
+    · rw [payloads_commitHeader]
+      split
+      · rcases rwInit_spec cfg st with e | ⟨e, _⟩ <;> rw [e]
+      · rfl
+    · rfl
+  unfold rwClose
+  split
+  · simp [encClose, implicitHeader, payloads, hch]
+  · exact hch
+
+theorem payloads_runWrapped (cfg : Cfg α) (name : Bytes) (ic : Bool) (ops : List (Op α)) :
+    payloads (runWrapped cfg name ic ops).log = written cfg ops := by
+  unfold runWrapped
+  rw [payloads_rwClose, payloads_run]
+  simp [St.init, payloads]
+
+/-! ## no encoding negotiated: the handler talks to the wrapped writer itself -/
+
+theorem plainStep_spec (cfg : Cfg α) (st : St α) (op : Op α) (h : plainOnly st.log = true) :
+    plainOnly (plainStep cfg st op).log = true ∧
+    payloads (plainStep cfg st op).log = payloads st.log ++ opPayloads cfg op := by
+  have hfold : ∀ (cs : List α) (s : St α), plainOnly s.log = true → plainOnly (cs.foldl dsWrite s).log = true := by
+    intro cs
+    induction cs with
+    | nil => intro s hs; exact hs
+    | cons c cs ih =>
+      intro s hs
+      exact ih (dsWrite s c) (by simp [dsWrite, implicitHeader, plainOnly, Ev.plainOk] at hs ⊢; exact hs)
+  cases op with
+  | writeHeader s => simp [plainStep, opPayloads, dsWriteHeader, payloads, plainOnly, Ev.plainOk] at h ⊢; exact h
+  | write p =>
+    simp only [plainStep, opPayloads]
+    split
+    · simp [implicitHeader]; exact h
+    · simp [dsWrite, implicitHeader, payloads, plainOnly, Ev.plainOk] at h ⊢; exact h
+  | flush => simp [plainStep, opPayloads, dsFlush, implicitHeader, payloads, plainOnly, Ev.plainOk] at h ⊢; exact h
+  | readFrom cs => exact ⟨hfold _ _ h, payloads_foldl_dsWrite _ _⟩
+  | hset k v => simp [plainStep, opPayloads]; exact h
+  | hadd k v => simp [plainStep, opPayloads]; exact h
+  | hdel k => simp [plainStep, opPayloads]; exact h
+
+theorem runPlain_spec (cfg : Cfg α) : ∀ (ops : List (Op α)) (st : St α), plainOnly st.log = true →
+    plainOnly (ops.foldl (plainStep cfg) st).log = true ∧
+    payloads (ops.foldl (plainStep cfg) st).log = payloads st.log ++ written cfg ops
+  | [], st, h => by simp [written]; exact h
+  | op :: ops, st, h => by
+    obtain ⟨a, b⟩ := plainStep_spec cfg st op h
+    obtain ⟨c, d⟩ := runPlain_spec cfg ops (plainStep cfg st op) a
+    rw [List.foldl_cons]
+    exact ⟨c, by rw [d, b]; simp [written, List.append_assoc]⟩
+
 end
 
 end CaddyModel.C15
